@@ -74,6 +74,11 @@ func (s BPlusTreeStore) GetLast(table storage.Table) (*storage.KVPair, error) {
 	result := new(storage.KVPair)
 	s.db.DescendGreaterThan(KVItem{[]byte{table.Prefix()}, nil}, func(i btree.Item) bool {
 		item := i.(KVItem)
+		if item.Key[0] != table.Prefix() {
+			// the descent starts at the greatest key of the whole tree: skip the
+			// entries of tables with a greater prefix, stop below this table
+			return item.Key[0] > table.Prefix()
+		}
 		result.Key = item.Key[1:]
 		result.Value = item.Value
 		return false
